@@ -295,7 +295,8 @@ class Certificate:
         list[int]
             The list of PSID.
         """
-        cert_app_permissions = self.certificate["toBeSigned"]["appPermissions"]
+        cert_app_permissions = self.certificate["toBeSigned"].get(
+            "appPermissions", [])
         to_return = []
         for elem in cert_app_permissions:
             to_return.append(elem["psid"])
